@@ -281,6 +281,41 @@ pub fn run(tier: Tier) -> i32 {
             }
         }
     }));
+    // the same word in both parts: every number-related word of the language (scale words and their plurals, ordinals,
+    // aliases, the interpreter's own literals) used bare in the first part and inside a number in the second — what a
+    // scan learnt about a word early in the text must not change how it reads the word later
+    {
+        let shards: Vec<(L, String)> = langs::ALL.iter().flat_map(|&l| vocab::number_words(l).into_iter().filter(|w| !w.contains(' ')).map(move |w| (l, w))).collect();
+        let acc_same = par_shards(shards, |(l, w), acc| {
+            let l = *l;
+            let lang = l.facade();
+            let c = vocab::cls(l);
+            let firsts = [w.clone(), format!("xyzzy {w} plugh"), format!("{w} xyzzy"), format!("{} xyzzy {w} plugh", c.unit)];
+            let seconds = [w.clone(), format!("{} {w}", c.unit), format!("{} {w} {}", c.unit, c.unit2), format!("{} {w}", c.tens), format!("{w} {}", c.unit), format!("{} {} {w} {} {w}", c.unit, c.thousand, c.conj)];
+            for &t in &[0.0, 10.0] {
+                let fa: Vec<String> = firsts.iter().map(|p| guard(|| replace_numbers_in_text(p, &lang, t)).unwrap_or_else(|e| e)).collect();
+                let sa: Vec<String> = seconds.iter().map(|p| guard(|| replace_numbers_in_text(p, &lang, t)).unwrap_or_else(|e| e)).collect();
+                for (ai, a) in firsts.iter().enumerate() {
+                    for (bi, b) in seconds.iter().enumerate() {
+                        for s in SEPARATORS {
+                            acc.states += 1;
+                            acc.traces += 1;
+                            let text = format!("{a}{s}{b}");
+                            let got = guard(|| replace_numbers_in_text(&text, &lang, t)).unwrap_or_else(|e| e);
+                            let want = format!("{}{s}{}", fa[ai], sa[bi]);
+                            if got != fa[ai] {
+                                acc.nontrivial += 1;
+                            }
+                            if got != want {
+                                ctx.report(acc, Violation { lang: l.code().into(), entry: "replace_text".into(), input: text, threshold: Some(t), clause: "rewrite(A S B, t) = rewrite(A, t) S rewrite(B, t)".into(), expected: want, observed: got });
+                            }
+                        }
+                    }
+                }
+            }
+        });
+        acc.merge(acc_same);
+    }
     // second clause: punctuation between two spelled numbers keeps them apart
     let reps: [u64; 30] = [0, 1, 2, 5, 9, 10, 11, 12, 16, 20, 21, 22, 30, 70, 71, 80, 81, 90, 99, 100, 101, 110, 200, 1000, 1001, 2000, 21000, 100000, 1000000, 2000021];
     for l in langs::ALL {
@@ -305,6 +340,30 @@ pub fn run(tier: Tier) -> i32 {
                 }
             }
         }
+    }
+    // the same clause, no pair of small numbers being special: every ordered pair of numbers up to the bound, two punctuations
+    let pair_max: u64 = tier.pick(120, 300);
+    {
+        let shards: Vec<(L, u64)> = langs::ALL.iter().flat_map(|&l| (0..=pair_max).map(move |a| (l, a))).collect();
+        let acc_pairs = par_shards(shards, |&(l, a), acc| {
+            let lang = l.facade();
+            let sa = spell::spell(l, a, Var::default());
+            for b in 0..=pair_max {
+                let sb = spell::spell(l, b, Var::default());
+                for p in [", ", "; "] {
+                    acc.states += 1;
+                    acc.traces += 1;
+                    acc.nontrivial += 1;
+                    let text = format!("{sa}{p}{sb}");
+                    let want = format!("{a}{p}{b}");
+                    let got = guard(|| replace_numbers_in_text(&text, &lang, 0.0)).unwrap_or_else(|e| e);
+                    if got != want {
+                        ctx.report(acc, Violation { lang: l.code().into(), entry: "replace_text".into(), input: text, threshold: Some(0.0), clause: "rewrite(spell(a) p spell(b), 0) = a p b".into(), expected: want, observed: got });
+                    }
+                }
+            }
+        });
+        acc.merge(acc_pairs);
     }
     // dashes glued to the words (a doubled hyphen, a trailing or leading one): whatever the tokenizer makes of them,
     // the two numbers are never fused into one
@@ -333,7 +392,7 @@ pub fn run(tier: Tier) -> i32 {
     let cov = json!({
         "exhaustive": true,
         "rule": "all ordered pairs (A,B) of phrases of <= k symbols over the context alphabet x 2 strong separators x thresholds {0,10}, differential: rewrite(A S B) vs rewrite(A) S rewrite(B); all pairs of 30 representative numbers x 14 punctuation strings at threshold 0; non-trivial = pairs where A is changed by rewriting, plus all punctuation cases",
-        "bounds": {"alphabet": n, "phrase_depth": k, "phrases_per_language": per_lang.iter().map(|(l, p)| json!({l.code(): p.len()})).collect::<Vec<_>>(), "separators": SEPARATORS, "punctuation": PUNCT, "edge_decorations": {"prefix_of_B": PRE, "suffix_of_A": SUF, "phrase_depth": k_e}, "long_A_filler_words_up_to": nmax, "odd_tokens_ending_A": ODD},
+        "bounds": {"alphabet": n, "phrase_depth": k, "phrases_per_language": per_lang.iter().map(|(l, p)| json!({l.code(): p.len()})).collect::<Vec<_>>(), "separators": SEPARATORS, "punctuation": PUNCT, "edge_decorations": {"prefix_of_B": PRE, "suffix_of_A": SUF, "phrase_depth": k_e}, "long_A_filler_words_up_to": nmax, "all_number_pairs_up_to": pair_max, "same_word_in_both_parts": "every number-related word of the language: 4 first parts x 6 second parts x 2 separators x thresholds {0,10}", "odd_tokens_ending_A": ODD},
     });
     ctx.finish(acc, cov, vec!["hyphen and apostrophe adjoining letters are word-forming and are not used as separating punctuation".into()])
 }
